@@ -23,6 +23,7 @@ type SolverCfg struct {
 	Solvers   []string // order of the race
 	Confirm   bool     // thorough: every unsat confirmed by a second solver
 	NoBatch   bool
+	Deadline  time.Time // wall-clock budget: obligations not started before it are left unknown
 	KeepFiles bool
 }
 
@@ -405,6 +406,10 @@ func (e *Engine) Solve(jobs []solveJob, cfg SolverCfg) {
 			defer wg.Done()
 			for j := range ch {
 				o := j.o
+				if !cfg.Deadline.IsZero() && time.Now().After(cfg.Deadline) {
+					o.Result, o.Solver, o.Output = "unknown", "none", "wall-clock budget of the check exhausted before this obligation was tried"
+					continue
+				}
 				mu.Lock()
 				seq++
 				id := seq
